@@ -1,7 +1,7 @@
 """Rules over the extracted server state machine (C13 - C17)."""
 from collections import defaultdict
 from mir import callee, callee_names
-from an import where, defs_of, single_def, root_local
+from an import where, defs_of, single_def, root_local, edge_fail_closed
 from common import fl
 import sm
 
@@ -197,6 +197,7 @@ class Srv:
         other = [(name, e) for name, hh in self.hs.items() if name not in ("schedule", "init_channel") and hh.user for e in hh.evs(K("init_channel"))]
         for name, e in other:
             res.bad("R9.queues-first", "%s|init_channel" % name, "the message queues are (re)created in %s: messages that peers already delivered are lost / rejected" % name, fl(e.sp))
+        self.consts_count_rules()
         h = self.h("validate")
         if h:
             ent, ex = h.arm("Init")
@@ -506,6 +507,7 @@ class Srv:
         self.cmd_index_rules()
         self.queue_mapping_rules()
         self.handle_lifecycle_rules()
+        self.accept_rules()
         # (d) panics
         self.panic_rules()
         self.internal_consts_unreachable()
@@ -738,6 +740,126 @@ class Srv:
                             "so later /run, /consts and /msg requests of its peers are answered with UnknownComputationId" % what, where(b, bi))
         res.need("R9.handle", "handle_table_operations", n_map, 5, "operations on the HashMap of PolicyStateHandles in polytune-http-server")
         res.need("R9.handle", "handle_removals", n_rm, 1, "removals from the table of handles")
+
+
+    # reviewed sets of states in which a command is accepted (every other state is answered by the fallback arm)
+    ACCEPT = {
+        "validate": {"Init", "AwaitingValidation"},
+        "run": {"Validated", "Running"},
+        "consts": {"Validated", "SendingConsts", "SendingConstsCompleted"},
+        "internal_consts_sent": {"SendingConsts"},
+    }
+
+    def accept_rules(self):
+        """R9.accept: a command is accepted in exactly the reviewed states; adding a state to an accepting arm
+        (e.g. `consts` while Running: a stray request overwrites constants that have already been counted)
+        changes a run under way."""
+        res = self.res
+        for name, want in self.ACCEPT.items():
+            h = self.hs.get(name)
+            if not h or not h.user or not h.switch:
+                continue
+            k, b = h.user
+            bi, tm, other, via, p = h.switch
+            if other is None:
+                continue
+            got = {st for st in STATES if st in tm and tm[st] != other}
+            if got == want:
+                res.ok("R9.accept", name, where(b, bi), "accepted in %s, every other state goes to the fallback arm" % sorted(got))
+            else:
+                extra, missing = got - want, want - got
+                res.bad("R9.accept", name, "the set of states in which `%s` is accepted changed: %s%s" % (name, ("also accepted in %s " % sorted(extra)) if extra else "", ("no longer accepted in %s" % sorted(missing)) if missing else ""), where(b, bi))
+
+    def consts_count_rules(self):
+        """R9.consts: the party starts (state Running) exactly when it holds constants of as many parties as
+        the program depends on: check_consts compares the two counts with `==`, and insert_consts adds
+        an entry only for a non-empty constants map (an empty entry would be counted as a supplier)."""
+        res = self.res
+        fg = self.fg
+        h = self.hs.get("check_consts")
+        if h and h.user:
+            found = None
+            for k, b in h.bodies.items():
+                for bi, blk in enumerate(b.blocks):
+                    for st in blk["s"]:
+                        if st["k"] == "assign" and st["r"]["k"] == "bin" and st["r"]["op"] in ("Eq", "Ne", "Ge", "Gt", "Le", "Lt") and blk["t"]["k"] == "switch":
+                            lens = 0
+                            for o in (st["r"]["a"], st["r"]["b"]):
+                                if o["k"] == "const" or o["p"]["pr"]:
+                                    continue
+                                d = defs_of(b, o["p"]["l"])
+                                if len(d) == 1 and d[0][1] == "t" and callee_names(d[0][2]) and callee_names(d[0][2])[-1].rsplit("::", 1)[-1] == "len":
+                                    lens += 1
+                            if lens == 2:
+                                found = (b, bi, st["r"]["op"])
+            if not found:
+                res.bad("R9.consts", "check_consts|count", "cannot locate the comparison of the number of received constants with the number the program depends on", fl(h.user[1].span))
+            elif found[2] not in ("Eq", "Ne"):
+                res.bad("R9.consts", "check_consts|count", "the readiness test is `%s`, not an equality of the two counts: the party can start before the constants of every supplier have arrived (entries of non-suppliers, or surplus entries, make up the number)" % found[2], where(found[0], found[1]))
+            else:
+                res.ok("R9.consts", "check_consts|count", where(found[0], found[1]), "Running is entered when consts.len() == const_deps.len()")
+        h = self.hs.get("insert_consts")
+        if h and h.user:
+            k, b = [(k_, b_) for k_, b_ in h.bodies.items() if any(callee_names(t_) and callee_names(t_)[-1].rsplit("::", 1)[-1] == "insert" for _bi, t_ in b_.calls())][:1] and [(k_, b_) for k_, b_ in h.bodies.items() if any(callee_names(t_) and callee_names(t_)[-1].rsplit("::", 1)[-1] == "insert" for _bi, t_ in b_.calls())][0] or h.user
+            ins = [bi for bi, t in b.calls() if callee_names(t) and callee_names(t)[-1].rsplit("::", 1)[-1] == "insert" and "HashMap" in (t["args"][0]["p"]["ty"] if t["args"] and t["args"][0]["k"] != "const" else "")]
+            emp = [bi for bi, t in b.calls() if callee_names(t) and callee_names(t)[-1].rsplit("::", 1)[-1] == "is_empty"]
+            guarded = False
+            for e_ in emp:
+                sw = b.blocks[e_]["t"].get("t")
+                for _ in range(3):
+                    if sw is None:
+                        break
+                    tt = b.blocks[sw]["t"]
+                    if tt["k"] == "switch":
+                        tg = [tb for _v, tb in tt["ts"]] + [tt["else"]]
+                        if any(all(i_ in b.reachable_from(x) for i_ in ins) for x in tg) and any(not any(i_ in b.reachable_from(x) for i_ in ins) for x in tg):
+                            guarded = True
+                        break
+                    sw = tt.get("t") if tt["k"] == "goto" else None
+            if ins and guarded:
+                res.ok("R9.consts", "insert_consts|non-empty", where(b, ins[0]), "an entry is inserted only for a non-empty constants map")
+            elif ins:
+                res.bad("R9.consts", "insert_consts|non-empty", "insert_consts records an entry for an empty constants map: a party without constants is counted as a supplier and check_consts starts the computation before the real constants arrived", where(b, ins[0]))
+            else:
+                res.bad("R9.consts", "insert_consts|non-empty", "cannot locate the insertion into the constants table", fl(b.span))
+
+    def http_error_rules(self):
+        """R9.http-err (HTTP layer): a route never turns an error of the state machine into a success
+        response: if the Result of the handle call is matched at all, its Err arm cannot reach an
+        `Ok(..)` of the route (the leader would otherwise go on with a follower that refused)."""
+        res = self.res
+        prog = self.prog
+        n = 0
+        for k, b in prog.bodies.items():
+            if b.krate != "polytune_http_server" or "::api::" not in b.owner:
+                continue
+            for bi, t in b.calls():
+                names = callee_names(t)
+                if not names or not any("handle::PolicyStateHandle::" in x for x in names) or bi not in b.live_blocks():
+                    continue
+                meth = [x for x in names if "handle::PolicyStateHandle::" in x][0].rsplit("::", 1)[-1]
+                if meth in ("cancel", "clone"):
+                    continue
+                n += 1
+                inst = "%s|%s" % (b.owner.rsplit("::", 1)[-1], meth)
+                # locals holding the awaited Result: type Result<(), HandleError<..>>
+                rl = {i for i, l in enumerate(b.locals) if l["ty"].startswith("core::result::Result<(), polytune_server_core::handle::HandleError")}
+                badsw = None
+                for bj, blk in enumerate(b.blocks):
+                    tt = blk["t"]
+                    if tt["k"] != "switch" or tt["o"]["k"] == "const" or bj not in b.live_blocks():
+                        continue
+                    for st in blk["s"]:
+                        if st["k"] == "assign" and st["r"]["k"] == "discr" and st["p"]["l"] == tt["o"]["p"]["l"] and st["r"]["p"]["l"] in rl and not st["r"]["p"]["pr"]:
+                            tm = {str(v): tb for v, tb in tt["ts"]}
+                            err_t = tm.get("1", tt["else"] if "0" in tm else None)
+                            if err_t is not None and not edge_fail_closed(b, bj, err_t)[0]:
+                                badsw = bj
+                if badsw is not None:
+                    res.bad("R9.http-err", inst, "the route can answer with success although the state machine returned an error for `%s`: the caller (the leader) goes on with a party that refused the command" % meth, where(b, badsw))
+                else:
+                    res.ok("R9.http-err", inst, where(b, bi), "an error of the state machine is never converted into a success response")
+        res.need("R9.http-err", "route_handle_calls", n, 4, "calls of PolicyStateHandle methods in the HTTP routes")
 
     PANIC_OK = {
         ("schedule", "expect"): "acquire_owned on a semaphore checked not-closed in new(); send on own cmd queue whose receiver the actor holds",
@@ -1025,6 +1147,7 @@ class Srv:
     def c16(self):
         res = self.res
         self.program_hash_rule()
+        self.http_error_rules()
         n_cmp = 0
         for name, arm, swv in (("validate", "AwaitingValidation", None), ("schedule", "ValidateRequested", "ValidateRequested")):
             h = self.h(name)
@@ -1303,6 +1426,7 @@ class Srv:
                 res.bad("R9.permit", "take|%s" % name, "the permit is taken out of the actor in %s" % name, fl(e.sp))
         if hr:
             self.permit_task_rule(hr)
+        self.http_error_rules()
         if hr:
             k, b = hr.user
             ent, ex = hr.arm("Running")
